@@ -57,6 +57,7 @@ type c04Case struct {
 	CutWho      int
 	Sign        bool
 	Salt        int
+	Poll        bool   `json:",omitempty"` // the application polls WaitingFor() on every party after every step
 	ProofMode   string `json:",omitempty"` // ECDSA: "mod" / "fac": only that proof is switched on (overrides Proofs)
 	IDStyle     string `json:",omitempty"` // "", "blank", "shared": free-form id strings of the parties
 	OtherGlobal bool   `json:",omitempty"` // process-global curve set to the curve this resharing does not use
@@ -117,6 +118,7 @@ func genC04(edd bool) func(t *rapid.T) c04Case {
 		c.Sign = edd || rapid.IntRange(0, 2).Draw(t, "sign") == 0
 		c.Salt = rapid.IntRange(0, 1<<20).Draw(t, "salt")
 		c.OtherGlobal = rapid.IntRange(0, 2).Draw(t, "otherGlobal") == 0
+		c.Poll = rapid.Bool().Draw(t, "poll")
 		c.IDStyle = rapid.SampledFrom([]string{"", "", "", "blank", "shared"}).Draw(t, "idStyle")
 		return c
 	}
@@ -298,6 +300,9 @@ func runC04(c c04Case) ev.Outcome {
 		}
 		desc = append(desc, fmt.Sprintf("|old|=%d/t=%d->n'=%d/t'=%d", len(st.Old), curT, len(st.NewKeys), st.NewT))
 		x := run.build()
+		if c.Poll {
+			pollWaitingFor(x.net)
+		}
 		w := watchResharing(x)
 		mon := newMonitor(proto, x.net)
 		_ = mon
@@ -473,6 +478,9 @@ func labelC04(out ev.Outcome, c c04Case, desc []string, w *reshareWatch) ev.Outc
 	}
 	if c.IDStyle != "" {
 		out.Label += " id-strings=" + c.IDStyle
+	}
+	if c.Poll {
+		out.Label += " polled"
 	}
 	if c.ProofMode != "" {
 		out.Label += " only-proof=" + c.ProofMode
